@@ -767,6 +767,13 @@ def find(req):
     ob = req.get("obligation") or ""
     if req.get("known_finding") == "C18-overlapping-targets":
         return check_known_overlap(req.get("witness"))
+    if req.get("suite"):
+        r = suite(quick=True) if req["suite"] == "quick" else suite(seeds=range(12), fault_seeds=range(5))
+        if r is None:
+            return {"reproduced": False, "note": "native suite agrees with the reference (libraries of depth <= 3, <= 6 items per folder, page sizes 1..4, "
+                                                 "12 fault kinds at every request index, crafted prefix / percent-escape siblings)"}
+        r["reproduced"] = True
+        return r
     if "get_target_folders" in ob or "_since" in ob:
         r = (check_target_folders() if "get_target_folders" in ob else None) or check_crafted()
         if r is None:
